@@ -209,8 +209,12 @@ fn fence_acqrel(execution: &mut Execution) {
 }
 
 fn fence_seqcst(execution: &mut Execution) {
-    fence_acqrel(execution);
+    fence_acq(execution);
     execution.threads.seq_cst_fence();
+
+    // The release half comes last: what the fence has acquired from earlier
+    // `SeqCst` fences is part of the view it releases.
+    fence_rel(execution);
 }
 
 impl<T: Numeric> Atomic<T> {
